@@ -77,3 +77,20 @@ Definition tenabled (f : tform) (s : tst) : Prop := exists a s', tstep f a s = S
 (** translator constant [progress_tick_send]: how the goroutine sends a tick *)
 Definition progress_ok (tick_send : string) : bool := String.eqb tick_send "select-with-done".
 Definition progress_form (tick_send : string) : tform := if progress_ok tick_send then CloseSelect else Close.
+
+(* ---------------------------------------------------------------- progress bars of a command *)
+(** cmd/wrgl/utils.WithProgressBar + cmd/wrgl ingestTable + Inserter:
+      WithProgressBar: defer barContainer.Wait()   -- returns when every STARTED bar is completed
+      ingestTable:     blkPT := NewBar(..); defer blkPT.Done(); ... ingest.IngestTable(.., WithProgressBar(blkPT))
+      Inserter:        pt.Incr() per saved block (the bar is started lazily by the first Incr);
+                       pt.Done() only on the success path of ingestTableFromBlocks
+    [defer_done] = the caller completes the bar on every path (the code as it is). *)
+Inductive ingest_outcome := IOk | IErr (saved : nat).     (* error after [saved] blocks were saved *)
+Definition bar_started (o : ingest_outcome) : bool :=
+  match o with IOk => true | IErr saved => negb (Nat.eqb saved 0) end.
+Definition bar_done (defer_done : bool) (o : ingest_outcome) : bool :=
+  defer_done || match o with IOk => true | IErr _ => false end.
+(* what the caller of the command sees: Some 0 = success, Some 1 = the error, None = Wait() never returns *)
+Definition command_result (bars_on defer_done : bool) (o : ingest_outcome) : option N :=
+  if negb bars_on || negb (bar_started o) || bar_done defer_done o
+  then Some (match o with IOk => 0%N | IErr _ => 1%N end) else None.
